@@ -19,7 +19,7 @@ RULE = ("fixed item set per VERIF_SEED replayed in N processes (distinct hash se
         "optimized SQL differs from the input (a rule fired); distinct = distinct (item, API)")
 ASSUMPTIONS = ["exceptions are outputs too: their class and message must be identical everywhere"]
 SPEC = {
-    "quick": {"shards": 12, "time_cap": 170, "items": 900},
+    "quick": {"shards": 12, "time_cap": 170, "items": 600},
     "thorough": {"shards": 48, "time_cap": 1500, "items": 2500},
 }
 PAIRS = [("", "duckdb"), ("duckdb", "sqlite"), ("postgres", "mysql"), ("snowflake", "bigquery"), ("", "tsql"), ("mysql", "postgres"),
@@ -121,7 +121,7 @@ def component_reuse(ctx, digests):
     names = [d for d in dialect_names() if d]
     half = max(ctx.nshards // 2, 1)
     mine = [d for i, d in enumerate(names) if i % half == ctx.shard % half]
-    cap = 700 if ctx.tier == "quick" else 100000
+    cap = 450 if ctx.tier == "quick" else 100000
     for d in mine:
         if ctx.expired():
             break
@@ -181,6 +181,47 @@ def component_reuse(ctx, digests):
                               {"dialect": d, "sql": sql})
 
 
+HIST_SCHEMA = {"t": {"s": "VARCHAR", "d": "DATE", "ts": "TIMESTAMP", "b": "BOOLEAN", "i": "BIGINT", "n": "DECIMAL(10, 2)", "f": "DOUBLE", "sm": "SMALLINT"}}
+HIST_EXPRS = ["COALESCE(t.s, t.d)", "COALESCE(t.d, t.s)", "CASE WHEN t.b THEN t.s ELSE t.ts END", "COALESCE(t.i, t.n)", "COALESCE(t.n, t.f)", "t.i + t.n",
+              "t.sm * t.f", "COALESCE(t.sm, t.i)", "GREATEST(t.s, t.d)", "t.s || t.i", "IF(t.b, t.d, t.ts)", "NULLIF(t.i, t.f)", "SUM(t.n)", "AVG(t.sm)"]
+HIST_STMTS = ["SELECT JSON_EXTRACT(x, '$.a[*].b') FROM t", "SELECT JSON_EXTRACT_SCALAR(x, '$.a[0].b') FROM t", "SELECT x -> '$.a' FROM t",
+              "SELECT CAST(a AS DECIMAL(10, 2)), a::TEXT, DATE_ADD(d, INTERVAL 1 DAY) FROM t", "SELECT * FROM UNNEST([1, 2]) AS x",
+              "SELECT STRFTIME(d, '%Y-%m-%d'), STR_TO_TIME(s, '%Y'), ARRAY_AGG(a ORDER BY b) FROM t", "CREATE TABLE t (a INT, b TEXT, c TIMESTAMP)"]
+
+
+def dialect_history(ctx, digests):
+    """what this process computes right after it has loaded its own random selection of dialects, in its own order (process 0:
+    none): annotation in several dialects and every dialect's rendering of a few statements. The driver compares the digests
+    across processes, so anything that depends on which dialect modules were loaded before shows as a difference."""
+    import sqlglot
+    from sqlglot.dialects.dialect import Dialect
+    from sqlglot.optimizer.annotate_types import annotate_types
+    from ..common import dialect_names
+
+    names = [d for d in dialect_names() if d]
+    rng = random.Random(f"{ctx.seed}:C15:history:{ctx.shard}")
+    pre = [] if ctx.shard == 0 else rng.sample(names, rng.randint(1, 6))
+    for d in pre:
+        Dialect.get_or_raise(d)
+    ctx.extra["preloaded_dialects"] = pre
+    out = {}
+    for dia in ["", "postgres", "mysql", "snowflake", "duckdb", "tsql", "bigquery", "spark"]:
+        for k, e in enumerate(HIST_EXPRS):
+            def ann():
+                t = annotate_types(sqlglot.parse_one(f"SELECT {e} AS r FROM t", read=dia), schema=HIST_SCHEMA, dialect=dia)
+                return t.selects[0].type.sql()
+            out[f"annotate:{dia or 'base'}:{k}"] = _digest(ann)
+    order = list(names)
+    rng.shuffle(order)
+    for d in order:
+        for k, sql in enumerate(HIST_STMTS):
+            out[f"render:{d}:{k}"] = _digest(lambda: sqlglot.transpile(sql, read="", write=d)[0])
+            out[f"self:{d}:{k}"] = _digest(lambda: sqlglot.transpile(sql, read=d, write=d)[0])
+    ctx.count("dialect_history_answers", len(out))
+    ctx.count("evaluations", len(out))
+    digests["dialect-history"] = out
+
+
 def _digest(fn):
     try:
         r = fn()
@@ -202,12 +243,14 @@ def worker(ctx):
     from sqlglot.schema import MappingSchema
     from ..common import guarded
 
+    digests_first = {}
+    dialect_history(ctx, digests_first)
     its = items(ctx.seed, SPEC[ctx.tier]["items"])
     order = list(range(len(its)))
     random.Random(f"{ctx.seed}:C15:order:{ctx.shard}").shuffle(order)
     reused = {}       # dialect -> (tokenizer, parser, generator)
     schemas = {}      # repr(schema) -> MappingSchema reused across items
-    digests = {}
+    digests = dict(digests_first)
     mism = 0
 
     def comps(d):
@@ -294,11 +337,11 @@ def cross_check(agg):
                 if k not in seen:
                     seen[k] = (dig, e.get("hashseed"))
                 elif seen[k][0] != dig:
-                    sig_api = api.split(":")[0] if str(iid) in ("reuse-fresh", "case-schema") else api
+                    sig_api = api.split(":")[0] if str(iid) in ("reuse-fresh", "case-schema", "dialect-history") else api
                     if (str(iid), sig_api) in flagged:
                         continue
                     flagged.add((str(iid), sig_api))
-                    name = f"{iid}:{sig_api}" if str(iid) in ("reuse-fresh", "case-schema") else sig_api
+                    name = f"{iid}:{sig_api}" if str(iid) in ("reuse-fresh", "case-schema", "dialect-history") else sig_api
                     out.append((f"output-differs-across-processes:{name}",
                                 {"item": iid, "api": api, "hashseeds": [seen[k][1], e.get("hashseed")], "digests": [seen[k][0], dig]},
                                 {"item_id": iid, "api": api}))
